@@ -6,7 +6,7 @@ tree, and the checks are run with --repo <scratch>. 16 workers. --record writes 
 import concurrent.futures, glob, json, os, shutil, subprocess, sys, tempfile
 V = os.path.dirname(os.path.dirname(os.path.abspath(__file__)))
 record = "--record" in sys.argv
-dirs = [a for a in sys.argv[1:] if a != "--record"] or [d for d in sorted(glob.glob(os.path.join(V, "seeded", "*"))) if not os.path.basename(d).startswith("refactor-")]
+dirs = [os.path.abspath(a) for a in sys.argv[1:] if a != "--record"] or [d for d in sorted(glob.glob(os.path.join(V, "seeded", "*"))) if not os.path.basename(d).startswith("refactor-")]
 props = [c["property_id"] for c in json.load(open(os.path.join(V, "MANIFEST.json")))["checks"]]
 def sh(cmd, **kw):
     return subprocess.run(cmd, shell=True, capture_output=True, text=True, **kw)
